@@ -62,9 +62,62 @@ type v04Script struct {
 	mix      float64
 	devnum   int // number of the (single) active card; card 0 then need not exist at all
 	// restart family only (zero values = the behaviour of the other families)
-	mixChans  []int      // feedback channels that get the mix fraction (nil = all of them)
+	mixChans []int // feedback channels that get the mix fraction (nil = all of them)
+	// mixPlan, if set, replaces mixAt/mix/mixChans: any number of mix requests, each naming its own channels with
+	// a fraction of its own per channel
+	mixPlan   []v04MixReq
 	frameRate float64    // frames per second of the card's time stamps (0 = 100 kHz)
 	sample    *v04Script // what the card delivers while the real Sample()/sampleCard looks at it (nil = Sample is bypassed)
+}
+
+// v04MixReq is one ConfigureMixFraction request: before the block with index `at` is requested, the feedback
+// channels idx[k] get the fractions fr[k] (in this order); channels not named keep what they had.
+type v04MixReq struct {
+	at  int
+	idx []int
+	fr  []float64
+}
+
+// mixReqs returns the script's mix requests in the order in which they are made (mixAt/mix/mixChans is the
+// special case of one request with the same fraction for every channel it names).
+func (s *v04Script) mixReqs() []v04MixReq {
+	if s.mixPlan != nil {
+		return s.mixPlan
+	}
+	if s.mixAt < 0 {
+		return nil
+	}
+	q := v04MixReq{at: s.mixAt}
+	for i := 1; i < 2*s.g.ncols*s.g.nrows; i += 2 {
+		if s.mixed(i) {
+			q.idx = append(q.idx, i)
+			q.fr = append(q.fr, s.mix)
+		}
+	}
+	return []v04MixReq{q}
+}
+
+// v04MixSet is a served request: from output sample `from` on the named channels have the new fractions.
+type v04MixSet struct {
+	from int
+	req  v04MixReq
+}
+
+// v04Fraction is the fraction in force for channel ch at output sample i: that of the last request served
+// before sample i that names the channel, 0 if there is none.
+func v04Fraction(served []v04MixSet, ch, i int) float64 {
+	f := 0.0
+	for _, m := range served {
+		if m.from > i {
+			break
+		}
+		for k, c := range m.req.idx {
+			if c == ch {
+				f = m.req.fr[k]
+			}
+		}
+	}
+	return f
 }
 
 func (s *v04Script) mixed(ch int) bool {
@@ -236,7 +289,7 @@ func (s *v04Script) build() (*v04Card, int) {
 	}
 	full = full[4*s.startOff:]
 	card := &v04Card{done: make(chan struct{}), allowed: 1 << 30}
-	if s.mixAt >= 0 {
+	if len(s.mixReqs()) > 0 {
 		card.allowed = 1 // lock-step: the start-up read only; the harness releases one read per block
 	}
 	for i := range full {
@@ -293,7 +346,7 @@ func v04RunOn(x *vexp.X, ls *LanceroSource, dev *LanceroDevice, card *v04Card, s
 	g := s.g
 	words := g.ncols * g.nrows
 	frameSize := 4 * words
-	x.Logf("geometry %dx%d startOff=%d gap=[%d,%d) avail=%v (cut: %v) mixAt=%d mix=%v mixChans=%v sampled=%v", g.ncols, g.nrows, s.startOff, s.gapA, s.gapB, s.avail, card.avail, s.mixAt, s.mix, s.mixChans, s.sample != nil)
+	x.Logf("geometry %dx%d startOff=%d gap=[%d,%d) avail=%v (cut: %v) mix requests (before block, channels, fractions)=%v sampled=%v", g.ncols, g.nrows, s.startOff, s.gapA, s.gapB, s.avail, card.avail, s.mixReqs(), s.sample != nil)
 
 	if s.sample != nil {
 		saved := cringeGlobalsPath
@@ -357,27 +410,24 @@ func v04RunOn(x *vexp.X, ls *LanceroSource, dev *LanceroDevice, card *v04Card, s
 	out := make([][]RawType, ls.nchan)
 	var extGot []int64
 	var blocks []v04Block
-	mixFrom := -1 // output sample index from which the new mix applies
+	reqs := s.mixReqs()
+	var served []v04MixSet // the requests made so far, each with the output sample index from which it applies
 	nsamples := 0
 	for bi := 0; ; bi++ {
 		ch := ls.getNextBlock()
-		if bi == s.mixAt {
-			// no new data is released while the request is outstanding, so it is served before the next block
-			var idx []int
-			var fr []float64
-			for i := 1; i < ls.nchan; i += 2 {
-				if s.mixed(i) {
-					idx = append(idx, i)
-					fr = append(fr, s.mix)
-				}
+		for _, q := range reqs {
+			if q.at != bi {
+				continue
 			}
-			if _, err := ls.ConfigureMixFraction(&MixFractionObject{ChannelIndices: idx, MixFractions: fr}); err != nil {
+			// no new data is released while the request is outstanding, so it is served before the next block
+			if _, err := ls.ConfigureMixFraction(&MixFractionObject{ChannelIndices: append([]int{}, q.idx...), MixFractions: append([]float64{}, q.fr...)}); err != nil {
 				return vexp.Result{Violation: "ConfigureMixFraction: " + err.Error(), Class: "mix-error"}
 			}
-			mixFrom = nsamples
+			served = append(served, v04MixSet{nsamples, q})
 		}
-		if s.mixAt >= 0 {
-			if bi < len(s.avail)-1 {
+		if len(reqs) > 0 {
+			// lock-step (one driver read per block) while a request is still to come, free-running afterwards
+			if bi < len(s.avail)-1 && len(served) < len(reqs) {
 				card.allow(1)
 			} else {
 				card.allow(1 << 20)
@@ -474,6 +524,7 @@ func v04RunOn(x *vexp.X, ls *LanceroSource, dev *LanceroDevice, card *v04Card, s
 		}
 	}
 	// feedback: delayed by one sample, flag bits cleared, mixed with the error of the same sample
+	nmixed, nsat0, nsatMax := 0, 0, 0 // samples with a non-zero fraction in force; of these, saturated at 0 / at 65535
 	for r := 0; r < g.nrows; r++ {
 		for c := 0; c < g.ncols; c++ {
 			ch := 2*(c*g.nrows+r) + 1
@@ -483,23 +534,25 @@ func v04RunOn(x *vexp.X, ls *LanceroSource, dev *LanceroDevice, card *v04Card, s
 					// the previous DELIVERED sample's feedback (the reader keeps no other memory)
 					fbPrev = float64(v04FbTag(delivered[i-1], r, c) &^ 3)
 				}
-				scale := 0.0
-				if mixFrom >= 0 && i >= mixFrom && s.mixed(ch) {
-					scale = s.mix / 1.0 // nsamp = 1
-				}
+				scale := v04Fraction(served, ch, i) / 1.0 // the fraction requested for THIS channel; nsamp = 1
 				want := fbPrev + scale*float64(v04Err(delivered[i], r, c))
 				var w RawType
 				switch {
 				case want >= math.MaxUint16:
 					w = math.MaxUint16
+					nsatMax++
 				case want < 0:
 					w = 0
+					nsat0++
 				default:
 					w = RawType(math.Floor(want + 0.5))
 				}
+				if scale != 0 {
+					nmixed++
+				}
 				if out[ch][i] != w {
-					return vexp.Result{Violation: fmt.Sprintf("feedback channel %d (row %d, column %d) sample %d (frame %d) is %d, expected %d = previous feedback %v with flag bits cleared + %v x error %d, saturated",
-						ch, r, c, i, delivered[i], out[ch][i], w, fbPrev, scale, v04Err(delivered[i], r, c)), Class: "feedback-wrong"}
+					return vexp.Result{Violation: fmt.Sprintf("feedback channel %d (row %d, column %d) sample %d (frame %d) is %d, expected %d = previous feedback %v with flag bits cleared + %v (the mix fraction in force for this channel) x error %d, saturated at 0 and 65535; mix requests (before block, channels, fractions) %v",
+						ch, r, c, i, delivered[i], out[ch][i], w, fbPrev, scale, v04Err(delivered[i], r, c), reqs), Class: "feedback-wrong"}
 				}
 			}
 		}
@@ -555,7 +608,11 @@ func v04RunOn(x *vexp.X, ls *LanceroSource, dev *LanceroDevice, card *v04Card, s
 	if skipped && !sawDrop {
 		return vexp.Result{Violation: fmt.Sprintf("frames were lost (delivered %v) but no block reported dropped frames", delivered), Class: "loss-not-reported"}
 	}
-	return vexp.Result{Nontrivial: n > 0 && len(blocks) > 1, Outcome: fmt.Sprintf("%v|%v|%v", delivered, extGot, blocks)}
+	outcome := fmt.Sprintf("%v|%v|%v", delivered, extGot, blocks)
+	if len(reqs) > 0 {
+		outcome += fmt.Sprintf("|mixed samples %d, saturated at 0: %d, at 65535: %d", nmixed, nsat0, nsatMax)
+	}
+	return vexp.Result{Nontrivial: n > 0 && len(blocks) > 1, Outcome: outcome}
 }
 
 // blocksFrame returns the frame number dastard assigned to output sample i.
@@ -596,6 +653,35 @@ func v04Take(x *vexp.X, ls *LanceroSource, blk *dataBlock, bi int, out [][]RawTy
 	*nsamples += n
 	x.Logf("block %d: %d frames, first frame %d, dropped %d, ext %v", bi, n, blk.segments[0].firstFrameIndex, blk.segments[0].droppedFrames, blk.externalTriggerRowcounts)
 	return ""
+}
+
+// Mix assignments. Feedback channel number k (k = 0 .. columns*rows-1, column-major like the channels) is channel 2k+1.
+// v04MixDistinct: a fraction of its own on every feedback channel. Variant 0: 0.25*(k+1), channels named in
+// ascending order; variant 1: 350*(k+1) with alternating sign (saturates at 0 and at 65535), channels named in
+// descending order.
+func v04MixDistinct(g v04Geom, at, variant int) v04MixReq {
+	q := v04MixReq{at: at}
+	n := g.ncols * g.nrows
+	for k := 0; k < n; k++ {
+		if variant == 0 {
+			q.idx, q.fr = append(q.idx, 2*k+1), append(q.fr, 0.25*float64(k+1))
+		} else {
+			kk := n - 1 - k
+			f := 350 * float64(kk+1)
+			if kk%2 == 1 {
+				f = -f
+			}
+			q.idx, q.fr = append(q.idx, 2*kk+1), append(q.fr, f)
+		}
+	}
+	return q
+}
+
+// v04MixSingle: a fraction on feedback channel number k only (k is taken modulo the number of feedback channels).
+func v04MixSingle(g v04Geom, at, k int, f float64) v04MixReq {
+	n := g.ncols * g.nrows
+	k = ((k % n) + n) % n
+	return v04MixReq{at: at, idx: []int{2*k + 1}, fr: []float64{f}}
 }
 
 type v04Chunking struct {
@@ -671,7 +757,7 @@ func v04Restart(x *vexp.X, s1, s2 *v04Script) vexp.Result {
 	card.load(c2)
 	r2 := v04RunOn(x, ls, dev, card, s2)
 	if r2.Violation != "" {
-		r2.Violation = fmt.Sprintf("second run of the same source object (first run: %dx%d, mix %v on channels %v from block %d; it ended normally): ", s1.g.ncols, s1.g.nrows, s1.mix, s1.mixChans, s1.mixAt) + r2.Violation
+		r2.Violation = fmt.Sprintf("second run of the same source object (first run: %dx%d, mix requests (before block, channels, fractions) %v; it ended normally): ", s1.g.ncols, s1.g.nrows, s1.mixReqs()) + r2.Violation
 		r2.Class = "second-run/" + r2.Class
 		return r2
 	}
@@ -682,7 +768,7 @@ func TestVerifC04(t *testing.T) {
 	r := vexp.NewRunner("C04")
 	r.CrashTrace = true
 	defer r.Finish()
-	r.SetBound(fmt.Sprintf("geometries (columns x rows) in {1,2,3}x{2,3}, %d frames (gap family: 32) of position-tagged words, stream starting 0-2 words into a frame; the active card numbered 0 or 1; chunkings: every way to make 1-3 driver reads end at offsets from a grid of byte positions (frame-aligned, word-aligned and mid-word, shorter and longer than 3 frames); external-trigger flag rising at every single (frame,row) and at pairs; mix fraction in {0.5,-1.5,400} switched on before block 0, 1 or 2; one gap of lost words of 8 lengths (1 word .. 3 frames + a row, never a whole number of frames) starting at every word offset of a three-frame window around a read boundary, for 6 chunkings (frame-aligned, not aligned, a too-short read after the loss, one long read); restart family: every geometry x start offset x {no mix, 0.5 on all feedback channels from block 0, 400 on channel 1 from block 1} in a first run, then on the same source object every geometry (same or different) x start offset x {no mix, -1.5 on all from block 1, 0.5 on the last feedback channel from block 0} in a second run, both started through the real Configure/Sample/sampleCard/updateChanOrderMap and ended by the normal stop path, one external-trigger pulse in each run", v04Frames))
+	r.SetBound(fmt.Sprintf("geometries (columns x rows) in {1,2,3}x{2,3}, %d frames (gap family: 32) of position-tagged words, stream starting 0-2 words into a frame; the active card numbered 0 or 1; chunkings: every way to make 1-3 driver reads end at offsets from a grid of byte positions (frame-aligned, word-aligned and mid-word, shorter and longer than 3 frames), each without a mix and with a mix fraction of its own on every feedback channel (0.25(k+1) for feedback channel number k, or 350(k+1) with alternating sign, which saturates at 0 and at 65535) requested before the first block (thorough: for one extra read also -1.5 on a single feedback channel, every channel); external-trigger flag rising at every single (frame,row) and at pairs; mix family: a request before block 0, 1 or 2 that sets the same fraction from {0.5,-1.5,400} on all feedback channels, or a fraction of its own on every feedback channel (the two sets above), or 0.5 (thorough: 0.5, -1.5, 400) on one feedback channel only, for every feedback channel; or two requests one block apart (a fraction of its own on every channel, then -2.5 on one channel and 0 on its neighbour, for every channel); one gap of lost words of 8 lengths (1 word .. 3 frames + a row, never a whole number of frames) starting at every word offset of a three-frame window around a read boundary, for 6 chunkings (frame-aligned, not aligned, a too-short read after the loss, one long read); restart family: every geometry x start offset x {no mix, 0.5 on all feedback channels from block 0, 400 on channel 1 from block 1, 0.25(k+1) on every feedback channel k from block 0, -1.5 on one feedback channel from block 1 (quick: the channel moves with the start offset; thorough: every channel)} in a first run, then on the same source object every geometry (same or different) x start offset x {no mix, -1.5 on all from block 1, 0.5 on the last feedback channel from block 0, 350(k+1) with alternating sign on every feedback channel k from block 1, 400 on one feedback channel from block 0 (quick: moves with the start offset; thorough: every channel)} in a second run, both started through the real Configure/Sample/sampleCard/updateChanOrderMap and ended by the normal stop path, one external-trigger pulse in each run", v04Frames))
 	var geoms []v04Geom
 	for c := 1; c <= 3; c++ {
 		for rr := 2; rr <= 3; rr++ { // one row: every word carries the frame bit, frames cannot be told apart
@@ -748,6 +834,22 @@ func TestVerifC04(t *testing.T) {
 				// one flag pulse of one row in the middle of the stream (the ext family moves it everywhere)
 				s.ext[6][g.nrows-1] = true
 				s.devnum = x.Choose(2) // the active card is card 0, or card 1 on a system without a card 0
+				// the same chunkings with a mix fraction of its own on every feedback channel, requested before the first
+				// block: the start-up read is then a frame shorter (it leaves two frames, no block exists yet when the
+				// request is made) and the frame it lacks comes with a read of its own
+				nmix := 3
+				if r.Thorough() && nreads == 1 {
+					nmix = 3 + words // also a fraction on one feedback channel only, for every channel (single extra read)
+				}
+				if m := x.Choose(nmix); m > 0 {
+					s.avail = append([]int{3*fs - 4*startOff}, s.avail...)
+					switch {
+					case m <= 2:
+						s.mixPlan = []v04MixReq{v04MixDistinct(g, 0, m-1)}
+					default:
+						s.mixPlan = []v04MixReq{v04MixSingle(g, 0, m-3, -1.5)}
+					}
+				}
 				return v04RunScript(x, s)
 			})
 			// family 2: external-trigger patterns (pairs, long pulses) with a fixed chunking
@@ -773,8 +875,31 @@ func TestVerifC04(t *testing.T) {
 				s := &v04Script{g: g, startOff: startOff, ext: noExt(g)}
 				// the start-up read leaves fewer than 3 frames, so that no block exists before the first release
 				s.avail = []int{3*fs - 4*startOff, 7*fs - 4*startOff + 2, 10*fs - 4*startOff, end}
-				s.mix = []float64{0.5, -1.5, 400}[x.Choose(3)]
-				s.mixAt = x.Choose(3)
+				// what is requested: the same fraction on all feedback channels (3 values), a fraction of its own on
+				// every feedback channel (2 sets), a fraction on one feedback channel only (every channel), or two
+				// requests: a fraction of its own on every channel, then, a block later, another fraction on one
+				// channel and 0 on its neighbour (every channel)
+				singles := []float64{0.5}
+				if r.Thorough() {
+					singles = []float64{0.5, -1.5, 400}
+				}
+				switch kind := x.Choose(4); kind {
+				case 0:
+					s.mix = []float64{0.5, -1.5, 400}[x.Choose(3)]
+					s.mixAt = x.Choose(3)
+				case 1:
+					v := x.Choose(2)
+					s.mixPlan = []v04MixReq{v04MixDistinct(g, x.Choose(3), v)}
+				case 2:
+					k := x.Choose(words)
+					f := singles[x.Choose(len(singles))]
+					s.mixPlan = []v04MixReq{v04MixSingle(g, x.Choose(3), k, f)}
+				case 3:
+					k := x.Choose(words)
+					at := x.Choose(2)
+					second := v04MixReq{at: at + 1, idx: []int{2*k + 1, 2*((k+1)%words) + 1}, fr: []float64{-2.5, 0}}
+					s.mixPlan = []v04MixReq{v04MixDistinct(g, at, 0), second}
+				}
 				return v04RunScript(x, s)
 			})
 			// family 5: a second run on the same source object, with the same or another geometry; a mix fraction may
@@ -789,25 +914,44 @@ func TestVerifC04(t *testing.T) {
 					s.devnum = startOff & 1
 					return s
 				}
+				// single-channel requests: quick takes one feedback channel per (geometry, start offset) - which one moves
+				// with the start offset -, thorough every feedback channel
+				nsingle := func(g v04Geom) int {
+					if r.Thorough() {
+						return g.ncols * g.nrows
+					}
+					return 1
+				}
 				s1 := mk(g, startOff, 0)
-				switch x.Choose(3) {
-				case 1:
+				switch m := x.Choose(4 + nsingle(g)); {
+				case m == 0:
+				case m == 1:
 					s1.mix, s1.mixAt = 0.5, 0
-				case 2:
+				case m == 2:
 					s1.mix, s1.mixAt, s1.mixChans = 400, 1, []int{1}
+				case m == 3:
+					s1.mixPlan = []v04MixReq{v04MixDistinct(g, 0, 0)}
+				default:
+					s1.mixPlan = []v04MixReq{v04MixSingle(g, 1, 1+startOff+(m-4), -1.5)}
 				}
 				g2 := geoms[x.Choose(len(geoms))]
 				n2 := g2.ncols * g2.nrows
 				if n2 > 3 {
 					n2 = 3
 				}
-				s2 := mk(g2, x.Choose(n2), 1)
+				so2 := x.Choose(n2)
+				s2 := mk(g2, so2, 1)
 				s2.devnum = s1.devnum
-				switch x.Choose(3) {
-				case 1:
+				switch m := x.Choose(4 + nsingle(g2)); {
+				case m == 0:
+				case m == 1:
 					s2.mix, s2.mixAt = -1.5, 1
-				case 2:
+				case m == 2:
 					s2.mix, s2.mixAt, s2.mixChans = 0.5, 0, []int{2*g2.ncols*g2.nrows - 1}
+				case m == 3:
+					s2.mixPlan = []v04MixReq{v04MixDistinct(g2, 1, 1)}
+				default:
+					s2.mixPlan = []v04MixReq{v04MixSingle(g2, 0, g2.ncols*g2.nrows-2-so2-(m-4), 400)}
 				}
 				return v04Restart(x, s1, s2)
 			})
